@@ -12,7 +12,7 @@ EXTRA = {
     "C14-2": ["C13", "C15"], "C15-1": ["C13"], "C15-2": ["C13"], "C10-1": ["C09"], "C09-1": ["C02"],
     # round 2 (change1 -> <id>-3, change2 -> <id>-4)
     "C01-3": ["C09"], "C02-3": ["C18"], "C02-4": ["C17", "C06"], "C03-4": ["C14"], "C04-3": ["C07"], "C04-4": ["C18"], "C06-3": ["C02", "C17"],
-    "C08-4": ["C13"], "C10-4": ["C02", "C17"], "C11-4": ["C12"], "C12-3": ["C09"], "C13-3": ["C08"], "C16-4": ["C11", "C12"], "C17-4": ["C07"],
+    "C05-5": ["C09"], "C08-4": ["C13"], "C10-4": ["C02", "C17"], "C11-4": ["C12"], "C12-3": ["C09"], "C13-3": ["C08"], "C16-4": ["C11", "C12"], "C17-4": ["C07"],
 }
 
 
